@@ -22,7 +22,7 @@ const C03_RULE: &str = "(1) Parser table: every one of the 14 states, each enter
 const C20_RULE: &str = "Before/after monitor on one real terminal: (a) every CSI final x {none,?,<,=,>,0x20-0x2F} x 7 parameter shapes x 7/8-bit, every ESC final x intermediate, every C0/C1, every string kind x introducer form x terminator form x 8 payloads - each kept only if the REFERENCE dispatch table yields no function for it - on 6 prior states, via feed_str and via feed(); (b) random G1 prior histories (both screens, resizes, all limits) followed by random control strings (payloads up to 4096 chars over printable ASCII, non-ASCII, C0 minus CAN/SUB/ESC) and unimplemented sequences. After each sequence: Changes.lines empty, no scrollback handed out, view/lines/cursor/cursor-key mode/dump() and every hooked hidden field (modes, margins, tabs, saved contexts, parser registers and state = ground) identical to before. (c) differential monitor over string-heavy streams. distinct_nontrivial = distinct (introducer, second char, terminator, length class, payload class, prior-state class).";
 
 const C02_RULE: &str = "After EVERY public call (feed_str / feed / resize; Changes consumed, partially consumed or dropped at random) of every history the monitor asserts through the public API: size() = last requested, view().len() = rows, view() is the tail slice of lines() (pointer identity), every line has cols cells, lines().len() >= rows, last line not soft-wrapped (TextUnwrapper), cursor row < rows, col <= cols, line(n) = view()[n], Changes.lines strictly increasing and < rows; through the hook: pending_wrap <=> col == cols, buffer geometry = terminal geometry, margins/tabs/dirty rows/active saved cursor inside the screen, inactive buffer self-consistent. Histories: G1 with 28% resizes and boosted alternate-screen/save-restore tokens on 1x1..12x7 and 1x1..60x20, and ALL sequences of 3 calls over 53 atoms (6 of them resizes) on tiny screens. The clause 'col == cols only by printing in the last column with auto-wrap on' is decided by the per-character differential run (the model enters that position only that way). distinct_nontrivial = distinct (call kind / resize direction, limit class, screen before+after, wrap-pending, scrollback present, size class, inactive buffer stale?).";
-const C13_RULE: &str = "After every feed_str / resize call (Changes consumed / partially consumed / dropped at random) lines().len() <= rows + L + L/10, = rows for L = 0, = rows while the alternate screen shows. Histories: long G1 sessions (4-30 calls x 2-12 tokens, text/LF heavy, alt excursions, 10% resizes) under L in {0,1,2,9,10,11,25,100,1000}; bulk sessions (10-3000 lines in ONE call, narrowing/widening resize chains, alt excursions with resizes). distinct_nontrivial = distinct (L, handling, call kind, screen, trimmed?, drained-amount class).";
+const C13_RULE: &str = "After every feed_str / resize call (Changes consumed / partially consumed / dropped at random) lines().len() <= rows + L + L/10, = rows for L = 0, = rows while the alternate screen shows. Histories: long G1 sessions (4-30 calls x 2-12 tokens, text/LF heavy, alt excursions, 10% resizes) under L in {0,1,2,9,10,11,25,100,1000}; bulk sessions (10-3000 lines in ONE call, narrowing/widening resize chains, alt excursions with resizes). Hook invariant after every call: the threshold beyond which the primary buffer trims never exceeds L + L/10 (a lower one keeps the bound) and the alternate buffer's is 0. Large limits: ~22,000 (thorough ~400,000) limits - all of 0..2048, k*10^j +- {0,1,5,9}, 2^j +- 1 up to 2^26, random up to 2^26 - are built on a 1x1 screen and the threshold read back through the hook; a threshold that is too high is then produced for real (exactly that many line feeds, lines() counted). Thorough: 32 sessions that fill a limit of 1-4 million. distinct_nontrivial = distinct (L, handling, call kind, screen, trimmed?, drained-amount class) + limit classes of the sweep.";
 const C15_RULE: &str = "Around every feed_str / resize call the visible rows are snapshotted; every row (present before and after) whose cells differ must be in Changes.lines of that call. Histories: G1 (half of them split into one function per call) incl. both screens, RIS, DECSTR, resize; ALL sequences of 3 calls over a 54-atom alphabet. Gates: every cell-mutating function kind was seen >= 500 times as the only function of a call that changed rows. distinct_nontrivial = distinct (first function kind, changed-rows pattern, screen, functions in call, size class) among calls that changed at least one row.";
 
 fn spec(prop: &str) -> CheckSpec {
@@ -95,6 +95,7 @@ fn spec(prop: &str) -> CheckSpec {
             rule = C13_RULE;
             gates.push(Gate { counter: "calls_that_trimmed", min_quick: 5000, min_thorough: 50_000 });
             gates.push(Gate { counter: "calls_on_alternate_screen", min_quick: 1000, min_thorough: 10_000 });
+            gates.push(Gate { counter: "limits_read_back_through_the_hook", min_quick: 20_000, min_thorough: 300_000 });
         }
         "C15" => {
             rule = C15_RULE;
